@@ -45,26 +45,22 @@ def monthDay (leap : Bool) (n : Nat) : Nat × Nat :=
     (month', n - preceding' + 1)
   else (month, n - preceding + 1)
 
-/-- first half of `_ord2ymd`: year, leap flag, 0-based day of year, from the ordinal (1 = 0001-01-01).
+/-- end of the first half of `_ord2ymd`, from the four quotients and the last remainder.
 The early return `if n1 == 4 or n100 == 4: return year-1, 12, 31` is day 365 of the leap year `year-1`. -/
+def yearDayCore (n400 n100 n4 n1 n : Nat) : Nat × Bool × Nat :=
+  if n1 = 4 ∨ n100 = 4 then (n400 * 400 + 1 + n100 * 100 + n4 * 4 + n1 - 1, true, 365)
+  else (n400 * 400 + 1 + n100 * 100 + n4 * 4 + n1, decide (n1 = 3 ∧ (n4 ≠ 24 ∨ n100 = 3)), n)
+
+/-- first half of `_ord2ymd`: year, leap flag, 0-based day of year, from the ordinal (1 = 0001-01-01):
+the `divmod` chain by 146097, 36524, 1461, 365 -/
 def yearDay (ordinal : Nat) : Nat × Bool × Nat :=
   let n := ordinal - 1
-  let n400 := n / 146097
-  let n := n % 146097
-  let n100 := n / 36524
-  let n := n % 36524
-  let n4 := n / 1461
-  let n := n % 1461
-  let n1 := n / 365
-  let n := n % 365
-  let year := n400 * 400 + 1 + n100 * 100 + n4 * 4 + n1
-  if n1 = 4 ∨ n100 = 4 then (year - 1, true, 365)
-  else (year, decide (n1 = 3 ∧ (n4 ≠ 24 ∨ n100 = 3)), n)
+  yearDayCore (n / 146097) (n % 146097 / 36524) (n % 146097 % 36524 / 1461) (n % 146097 % 36524 % 1461 / 365) (n % 146097 % 36524 % 1461 % 365)
 
 def ord2ymd (ordinal : Nat) : Nat × Nat × Nat :=
-  let (y, leap, n) := yearDay ordinal
-  let (m, d) := monthDay leap n
-  (y, m, d)
+  let yd := yearDay ordinal
+  let md := monthDay yd.2.1 yd.2.2
+  (yd.1, md.1, md.2)
 
 /-- the six numbers handed to `satrec.propagate`; `secUs` is `SS.ffffff` in microseconds -/
 structure Fields where
@@ -78,9 +74,9 @@ deriving Repr, DecidableEq
 
 /-- `f"{utc:%Y %m %d %H %M %S.%f}"` of the datetime `us` microseconds after 0001-01-01T00:00:00 -/
 def utcFields (us : Nat) : Fields :=
-  let (y, m, d) := ord2ymd (us / usPerDay + 1)
+  let ymd := ord2ymd (us / usPerDay + 1)
   let r := us % usPerDay
-  { year := y, month := m, day := d, hour := r / 3600000000, minute := r / 60000000 % 60, secUs := r % 60000000 }
+  { year := ymd.1, month := ymd.2.1, day := ymd.2.2, hour := r / 3600000000, minute := r / 60000000 % 60, secUs := r % 60000000 }
 
 /-- `float("SS.ffffff")`: the double nearest to the six-place decimal (driver only) -/
 def secFloat (f : Fields) : Float := Float.ofScientific f.secUs true 6
